@@ -353,3 +353,50 @@ package http2
 //@ ensures win: !st.ack ==> sone(r, cnt, 4, st.windowSize)
 //@ ensures push: !st.ack ==> ite(st.enablePush, snone(r, cnt, 2), sone(r, cnt, 2, 0))
 //@ ensures frm: !st.ack ==> ite(st.frameSize != 0, sone(r, cnt, 5, st.frameSize), snone(r, cnt, 5))
+
+// ---------------------------------------------------------------------------
+// hpack.go: RFC 7541. Integer and string primitives are specified against
+// /verif/spec/20_hpack_int.smt2 (written from RFC 7541 section 5.1).
+// ---------------------------------------------------------------------------
+
+//@ func readInt
+//@ props C03 C16
+//@ requires nbits: 1 <= n && n <= 8
+//@ pure
+//@ loop 0: unroll 12
+//@ ensures accept: r2 == nil <==> spec.intFits(b, n)
+//@ ensures value: r2 == nil ==> r1 == spec.intVal(b, n)
+//@ ensures rest: r2 == nil ==> samearray(r0, b) && offset(r0) == offset(b) + spec.intLen(b, n) && len(r0) == len(b) - spec.intLen(b, n)
+//@ ensures trunc: spec.intTrunc(b, n) ==> r2 == ErrUnexpectedSize
+//@ ensures errs: r2 != nil ==> r2 == ErrUnexpectedSize || r2 == ErrIntOverflow
+//@ ensures unexp: r2 == ErrUnexpectedSize ==> !spec.intComplete(b, n)
+//@ ensures big: spec.intComplete(b, n) && !spec.intFits(b, n) ==> r2 == ErrIntOverflow
+//@ ensures keep: r2 != nil ==> sameslice(r0, b)
+
+//@ func appendInt
+//@ props C04
+//@ # HPACK uses prefixes of 4 to 7 bits (RFC 7541 section 6); every call site passes one of those
+//@ requires nbits: 4 <= bits && bits <= 7
+//@ cases bits == 4; bits == 5; bits == 6; bits == 7
+//@ # the integer's first octet is OR'ed into the last octet of dst, whose low `bits` bits must be clear
+//@ requires clear: len(dst) > 0 ==> spec.intFirst(dst[len(dst)-1:], bits) == 0
+//@ modifies capacity(dst)
+//@ loop 0: unroll 11
+//@ opt perreturn=true
+//@ let last = ite(len(dst) == 0, 0, len(dst) - 1)
+//@ ensures keep: forall(i, 0, last, r0[i] == old(dst)[i])
+//@ ensures high: len(dst) > 0 ==> r0[last] - spec.intFirst(r0[last:], bits) == old(dst)[last]
+//@ ensures high0: len(dst) == 0 ==> r0[0] == spec.intFirst(r0[0:], bits)
+//@ opt chain=true
+//@ let d = index - spec.pfx(bits)
+//@ # shape of the continuation octets, then their payload bits, then what they decode to
+//@ ensures cont: forall(j, 1, 11, j < len(r0) - last - 1 ==> r0[last + j] >= 128) && (len(r0) - last >= 2 ==> r0[len(r0) - 1] < 128)
+//@ ensures bits7_1: 1 < len(r0) - last ==> r0[last + 1] % 128 == (d >> 0) % 128
+//@ ensures bits7_2: 2 < len(r0) - last && d < 2097152 ==> r0[last + 2] % 128 == (d >> 7) % 128
+//@ ensures bits7_3: 3 < len(r0) - last && d < 2097152 ==> r0[last + 3] % 128 == (d >> 14) % 128
+//@ ensures declen: spec.intLen(r0[last:], bits) == len(r0) - last
+//@ # BOUNDED: the decoded value is proved for integers that need at most three continuation octets
+//@ # (index < 2^21 + prefix, which covers every table index and every string shorter than 2 MiB);
+//@ # above that only the shape (cont, declen, short) is proved
+//@ ensures decval: d < 2097152 ==> spec.intVal(r0[last:], bits) == index
+//@ ensures short: len(r0) - last <= 11
